@@ -23,10 +23,10 @@ import (
 func TestVerifC09_curve4q(t *testing.T) {
 	r := verifmc.Start(t, "C09", "curve4q")
 	defer r.Finish()
-	r.Rule("public keys: the FourQ point alphabet of unit fourq (flips of 1 quick / 11 thorough bases) plus the library's own public keys; secrets: a SHAKE value (thorough: also N-1, 1, 2^256-1); " +
+	r.Rule("public keys: the FourQ point alphabet of unit fourq (flips of 1 quick / 11 thorough bases) plus the constructed special points (a coordinate 0, +-1, +-j, +-j*i, j<4 quick / 16 thorough; all 392 small-order points) and the library's own public keys; secrets: a SHAKE value (thorough: also N-1, 1, 2^256-1); " +
 		"distinct = distinct (secret, public key bytes)")
 	c := ecurve.FourQ()
-	cases := c09ref.FourQCases(c09ref.EdOptions{FlipBases: r.Pick(1, 11)})
+	cases := c09ref.FourQCases(c09ref.EdOptions{FlipBases: r.Pick(1, 11), Special: int64(r.Pick(4, 16))})
 	secrets := [][]byte{verifmc.Shake("c09-4q-secret-0", 32)}
 	if r.Thorough() {
 		secrets = append(secrets, fpx.ToLE(c09ref.Scalars(c.N)[1].V, 32), fpx.ToLE(c09ref.Scalars(c.N)[0].V, 32), bytes.Repeat([]byte{0xff}, 32))
